@@ -65,6 +65,7 @@ func cmdReplay(args []string) {
 	seed := fs.Int64("seed", 1, "seed")
 	thorough := fs.Bool("thorough", false, "thorough tier body sizes")
 	small := fs.Bool("small", false, "small bodies only")
+	large := fs.Bool("large", false, "bodies around 1 MiB and of several MiB only")
 	keys := fs.String("keys", "plain", "plain|rich|both")
 	reopen := fs.Bool("reopen", false, "reopen the store before the last step")
 	workers := fs.Int("workers", 8, "parallel workers")
@@ -81,7 +82,7 @@ func cmdReplay(args []string) {
 		return
 	}
 	cfg := &RunCfg{Property: *prop, Systems: strings.Split(*systems, ","), Opts: parseOpts(*opts), Seed: *seed,
-		Thorough: *thorough, Small: *small, KeyModes: parseKeyModes(*keys), Reopen: *reopen, Workers: *workers, Addr: *addr}
+		Thorough: *thorough, Small: *small, Large: *large, KeyModes: parseKeyModes(*keys), Reopen: *reopen, Workers: *workers, Addr: *addr}
 	sum := replayTours(os.Stdin, cfg, kf, 40)
 	rep := finalReport{ReplaySummary: sum}
 	for _, m := range sum.Mismatches {
